@@ -28,13 +28,19 @@ func init() {
 // revalidateFn: the unexported, parameterless Manager method that rebuilds the mid-state (assigns txpool.ms a non-nil value).
 func revalidateFn(c *Ctx, pf poolFields) *ir.Func {
 	var out *ir.Func
+	size := 0
 	for _, f := range c.P.MethodsOf("chain", "Manager") {
 		if exported(f) || (f.Type.Params != nil && len(f.Type.Params.List) > 0) {
 			continue
 		}
-		for _, w := range f.WritesIn(f.Body, false) {
-			if f.FieldOf(w.LHS) == pf.ms && w.RHS != nil && !f.IsNil(w.RHS) {
-				out = f
+		// (the store may sit in a method of the pool's own type: look at the method with its helpers expanded, and
+		// take the smallest one — a caller of the step contains the step)
+		v := c.P.Expand(f, ir.ExpandOpt{Key: "unit"})
+		for _, w := range v.WritesIn(v.Body, false) {
+			if v.FieldOf(w.LHS) == pf.ms && w.RHS != nil && !v.IsNil(w.RHS) {
+				if n := len(v.Graph().Nodes); out == nil || n < size {
+					out, size = f, n
+				}
 			}
 		}
 	}
@@ -441,6 +447,44 @@ func c05r5(c *Ctx) {
 	if n == 0 {
 		ir.Fail("no block-weight test inside a pool loop found in MineBlock")
 	}
+	// and no loop fills the block without one (the v1 and the v2 pass may be one loop or two)
+	isWeightTest := func(nd *cfgx.Node) bool {
+		return nd.AST != nil && nd.Block != nil && nd.Block.Cond == nd.AST && len(nd.Succs) == 2 &&
+			derivesFromCall(f, nd.AST, func(call ir.Call) bool { return call.Fn != nil && call.Fn.Name() == "MaxBlockWeight" })
+	}
+	ir.Walk(f.Body, false, func(x ast.Node) {
+		rs, ok := x.(*ast.RangeStmt)
+		if !ok {
+			return
+		}
+		fills := false
+		for _, w := range f.WritesIn(rs.Body, false) {
+			if w.RHS == nil {
+				continue
+			}
+			ac, isCall := ast.Unparen(w.RHS).(*ast.CallExpr)
+			if !isCall {
+				continue
+			}
+			if id, isID := ac.Fun.(*ast.Ident); !isID || id.Name != "append" {
+				continue
+			}
+			if fld := f.FieldOf(w.LHS); fld != nil && fld.Name() == "Transactions" {
+				fills = true
+			}
+		}
+		if !fills {
+			return
+		}
+		ob := c.Ob(f, "filling-loop-has-weight-test", rs.Pos())
+		has := false
+		for _, nd := range g.Nodes {
+			if nd.AST != nil && containsNode(rs.Body, nd.AST) && isWeightTest(nd) {
+				has = true
+			}
+		}
+		ob.Check(has, nil, "the loop at %s appends pool transactions to the block without a test against MaxBlockWeight: the mined block can exceed the weight limit", c.P.Pos(rs.Pos()))
+	})
 }
 
 // c05r7: &x handed to the element updater must not be rooted at a by-value local copy.
@@ -450,22 +494,25 @@ func c05r7(c *Ctx) {
 	for _, nm := range pu.Type.Params.List[0].Names {
 		txnParam = pu.Info().Defs[nm]
 	}
-	// the per-element closure: local variable bound to a literal taking *StateElement
+	// every place where the updater (with the helpers that collect the elements expanded into it) takes the address of
+	// a state element: handed to the per-element closure directly, or collected into a list first
 	n := 0
-	for _, call := range pu.Calls(false) {
-		if call.Fn != nil || len(call.Expr.Args) != 1 {
-			continue
+	puv := getChainRoles(c.P).view(pu)
+	var sites []*ast.UnaryExpr
+	ir.Walk(puv.Body, false, func(x ast.Node) {
+		if u, ok := x.(*ast.UnaryExpr); ok && u.Op == token.AND {
+			if t := puv.TypeOf(u); t != nil && isPointer(t) && ir.IsNamed(t, ir.PkgPath("types"), "StateElement") {
+				sites = append(sites, u)
+			}
 		}
-		u, ok := ast.Unparen(call.Expr.Args[0]).(*ast.UnaryExpr)
-		if !ok || u.Op.String() != "&" {
-			continue
-		}
+	})
+	for _, u := range sites {
 		n++
 		c.Visit(1)
-		ob := c.Ob(pu, "pointer-into-transaction", call.Pos())
-		root := pu.ObjOf(rootOfLvalue(u.X))
+		ob := c.Ob(puv, "pointer-into-transaction", u.Pos())
+		root := puv.ObjOf(rootOfLvalue(u.X))
 		switch {
-		case root == txnParam:
+		case root == txnParam || (root != nil && c.P.OrigObj(root) == txnParam):
 			ob.OK("rooted at the transaction parameter")
 		case root != nil && isPointer(root.Type()):
 			ob.OK("rooted at a pointer-typed value")
@@ -474,7 +521,7 @@ func c05r7(c *Ctx) {
 			if root != nil {
 				name = root.Name()
 			}
-			ob.Bad(nil, "the element updater is given &%s at %s, which is rooted at the by-value local %q: the moved proof is written to a copy and discarded, so the pooled transaction keeps a stale proof and is dropped at the next revalidation", ir.ExprString(u.X), c.P.Pos(call.Pos()), name)
+			ob.Bad(nil, "the element updater is given &%s at %s, which is rooted at the by-value local %q: the moved proof is written to a copy and discarded, so the pooled transaction keeps a stale proof and is dropped at the next revalidation", ir.ExprString(u.X), c.P.Pos(u.Pos()), name)
 		}
 	}
 	if n == 0 {
@@ -712,6 +759,21 @@ func c05r10(c *Ctx) {
 			return nil
 		}
 		return call.Args[0]
+	}
+	{
+		direct := isWeightCall
+		// the weight may reach the sum through a helper's parameter (`pool.push(id, txn, cs.TransactionWeight(txn))`)
+		isWeightCall = func(f *ir.Func, e ast.Expr) ast.Expr {
+			if x := direct(f, e); x != nil {
+				return x
+			}
+			if _, isID := ast.Unparen(e).(*ast.Ident); isID {
+				if o := origin(f, e); o != e {
+					return direct(f, o)
+				}
+			}
+			return nil
+		}
 	}
 	for _, f := range getChainRoles(c.P).methodsV {
 		g := f.Graph()
